@@ -17,8 +17,11 @@ def jobs_for(tier):
     """(variant, input, threads, nested, bound, cost, policy, yields, nshards)"""
     J = []
     if tier == "quick":
+        for k in (6, 3):
+            J.append(("vgomp-O2", k, 2, 0, 2, 0, 0, Y_MERGE | Y_KERNEL, 12))      # the two 6-leaf trees are the largest jobs: first, most shards
         for k in TREES:
-            J.append(("vgomp-O2", k, 2, 0, 2, 0, 0, Y_MERGE | Y_KERNEL, 4))
+            if k not in (6, 3):
+                J.append(("vgomp-O2", k, 2, 0, 2, 0, 0, Y_MERGE | Y_KERNEL, 4))
             J.append(("vgomp-O2", k, 3, 0, 1, 0, 0, Y_MERGE | Y_KERNEL, 2))
             J.append(("vgomp-asan", k, 2, 0, 1, 0, 0, Y_MERGE, 1))
         J.append(("vgomp-O2", 0, 2, 0, 2, 0, 0, Y_DM, 2))
